@@ -489,7 +489,7 @@ class SignatureOps(Family):
     def cases(self, shard, tier):
         if shard[0] == 'cs':
             for op in (0xac, 0xad):
-                for sigk in ('right', 'wrongkey', 'empty', 'otherdigest', 'ht_none', 'ht_single_anyone'):
+                for sigk in ('right', 'wrongkey', 'empty', 'otherdigest', 'ht_none', 'ht_single_anyone', 'ht_22', 'ht_43', 'ht_c3', 'ht_00', 'sig_inside_data'):
                     for pubk in ('comp', 'uncomp', 'hybrid', 'badprefix', 'offcurve', 'short', 'empty'):
                         for inscript in (0, 1):
                             yield ('cs', op, sigk, pubk, inscript)
@@ -520,7 +520,7 @@ class SignatureOps(Family):
                    'hybrid': bytes([6 + (pt[1] & 1)]) + EC.encode_point(pt, False)[1:],
                    'badprefix': b'\x00' + EC.encode_point(pt, True)[1:], 'offcurve': b'\x04' + EC.encode_point(pt, False)[1:64] + bytes([(pt[1] + 1) & 0xff]),
                    'short': EC.encode_point(pt, True)[:32], 'empty': b''}[pubk]
-            ht = {'ht_none': 2, 'ht_single_anyone': 0x83}.get(sigk, 1)
+            ht = {'ht_none': 2, 'ht_single_anyone': 0x83, 'ht_22': 0x22, 'ht_43': 0x43, 'ht_c3': 0xc3, 'ht_00': 0}.get(sigk, 1)
             tail = bytes([op]) + (b'\x51' if op == 0xad else b'')
             # the signed subscript: scriptPubKey = <pub> OP (signature pushed by the initial stack), or the
             # contrived form where the signature is also pushed inside the script (signature removal)
@@ -540,6 +540,14 @@ class SignatureOps(Family):
                 gscript = push(gpub) + b'\xac'
                 gsig = _sign(sec, SH.legacy(gscript, m, 0, 1)[0], 1)
                 compare_eval(gscript, (gsig,), NONE, 'genuine CHECKSIG before a malformed key', checksig=cs, tx=tx)
+            if sigk == 'sig_inside_data':
+                # the bytes of the signature push occur *inside the data* of a larger push: removal is opcode-aligned, so
+                # they stay in the signed subscript.  The signature must therefore commit to itself - impossible - so the
+                # signature is made over the subscript as the reference sees it for a fixed stand-in and CHECKSIG is false;
+                # both interpreters must agree on the verdict and final stack either way.
+                inner = push(sig) + b'\x75'
+                script = push(inner) + b'\x75' + push(pub) + tail
+                return compare_eval(script, (sig,), NONE, 'CHECKSIG with the signature push inside push data (%s)' % pubk, checksig=cs, tx=tx), True
             if inscript:
                 script = push(sig) + push(pub) + tail
                 init = ()
